@@ -202,6 +202,8 @@ def probe_ops(fs, caller, size, g):
 
 def execute(scenario, log=None):
     """Run a scenario.  Returns dict(violations, states, stats, digest)."""
+    if scenario.get("mode") == "runloop":
+        return execute_runloop(scenario, log)
     caller, size, buf = scenario["caller"], scenario["size"], scenario["buffer"]
     if log is None:
         log = EventLog()
@@ -442,9 +444,104 @@ def sweep_scenarios(caller, size, buf, rng):
 
 
 # ----------------------------------------------------------------------------
+# checkpoint writes reached through the real run loops (Optimizer.run / MCMC.run via main())
+# ----------------------------------------------------------------------------
+RUNLOOP_RECIPES = [
+    {"kind": "toy_opt", "algorithm": "Adam", "scheduler": "StepLR", "loss": "map", "iterations": 7, "freq": 5, "param_dtype": "default"},
+    {"kind": "toy_opt", "algorithm": "SGD-momentum", "scheduler": "none", "loss": "map", "iterations": 6, "freq": 2, "param_dtype": "default"},
+    {"kind": "toy_opt", "algorithm": "LBFGS", "scheduler": "none", "loss": "map", "iterations": 5, "freq": 2, "param_dtype": "default"},
+    {"kind": "toy_opt", "algorithm": "Adam", "scheduler": "none", "loss": "ELBO", "samples": 2, "iterations": 5, "freq": 3, "param_dtype": "default", "convergence": True},
+    {"kind": "toy_mcmc", "operators": ["sliding", "scaler"], "iterations": 7, "freq": 3},
+    {"kind": "toy_mcmc", "operators": ["hmc-adaptive"], "iterations": 5, "freq": 2},
+]
+
+
+def _runloop_setup(sc):
+    """Directory with a complete checkpoint left by an earlier run, plus a fault-free probe of
+    the judged run: the bytes of every checkpoint generation and the fs operations of every save."""
+    from checks import c17
+
+    recipe = sc["recipe"]
+    spec, meta = c17.build_spec(recipe)
+    fs = SimFS(buffer_size=sc["buffer"])
+    first = c17.build_spec(dict(recipe, iterations=recipe["freq"]))[0] if sc["resumed"] else spec
+    ctl0, out0 = c17.run_incarnation(fs, first, meta, "float64", sc["seed"], 0, {"kind": "none"}, EventLog(), False)
+    prev = fs.durable(NAME)
+    snap = fs.snapshot()
+    base = ctl0.position if sc["resumed"] else 0
+    ctlp, outp = c17.run_incarnation(fs, spec, meta, "float64", sc["seed"] + 1, base, {"kind": "probe"}, EventLog(), sc["resumed"])
+    gens = [prev] + [c["bytes"] for c in ctlp.checkpoints]
+    return spec, meta, snap, base, gens, ctlp.save_oplogs, (out0.kind, outp.kind)
+
+
+def _classify_bytes(data, gens):
+    if data is None:
+        return ("absent", None)
+    # a deterministic re-run reproduces earlier checkpoints byte for byte: identical content counts
+    # as the newest generation it equals
+    for g in range(len(gens) - 1, -1, -1):
+        if data == gens[g]:
+            return ("complete", g)
+    try:
+        json.loads(data.decode("utf-8"))
+    except (ValueError, UnicodeDecodeError):
+        return ("truncated", None)
+    return ("mixture", None)
+
+
+def execute_runloop(sc, log=None):
+    from checks import c17
+
+    if log is None:
+        log = EventLog()
+    spec, meta, snap, base, gens, oplogs, kinds = _runloop_setup(sc)
+    res = {"violations": [], "states": [], "stats": {"attempts": 0, "crashed": 0, "completed": 0, "fs_ops": 0, "exceptions": 0}, "fired": {}, "digest": None}
+    if kinds != ("finished", "finished") or gens[0] is None:
+        res["excluded"] = "run loop scene does not run to completion on this tree: %s" % (kinds,)
+        res["digest"] = log.digest()
+        return res
+    j = sc["fault"]["save"]
+    fault = {k: v for k, v in sc["fault"].items() if k != "save"}
+    fs = SimFS(buffer_size=sc["buffer"])
+    fs.restore(snap)
+    ctl, out = c17.run_incarnation(fs, spec, meta, "float64", sc["seed"] + 1, base, {"kind": "fsfault", "n": j, "fault": fault}, log, sc["resumed"])
+    for k, v in fs.fired.items():
+        res["fired"][k] = v
+    res["stats"]["attempts"] = 1
+    after = {"name": _classify_bytes(fs.durable(NAME), gens), "old": _classify_bytes(fs.durable(OLD), gens), "new": _classify_bytes(fs.durable(NEW), gens)}
+    before = {"name": ("complete", j - 1), "old": ("absent", None), "new": ("absent", None)}
+    outcome = {"crash": "crash", "exception": "exception", "finished": "completed"}[out.kind]
+    res["stats"]["crashed" if outcome == "crash" else ("exceptions" if outcome == "exception" else "completed")] = 1
+    log.add("runloop", sc["recipe"].get("algorithm") or sc["recipe"].get("operators"), j, fault, outcome, _abbr(after))
+    res["states"].append("run:%s|%s|%s|%s|%s" % (_kinds(before), fault["kind"], "-", outcome, _kinds(after)))
+    if outcome != "completed":
+        for v in judge(before, after, j, fault, "-", j - 1):
+            v["signature"]["caller"] = "run-loop"
+            res["violations"].append(v)
+    res["digest"] = log.digest()
+    return res
+
+
+def runloop_scenarios(recipe, resumed, buffer, seed, rng):
+    base_sc = {"mode": "runloop", "recipe": recipe, "resumed": resumed, "buffer": buffer, "seed": seed}
+    try:
+        spec, meta, snap, base, gens, oplogs, kinds = _runloop_setup(base_sc)
+    except Exception:  # noqa: BLE001
+        return []
+    out = []
+    for j, (oplog, uw) in enumerate(oplogs, start=1):
+        for f in enumerate_faults(oplog, uw, rng, interrupts=2):
+            out.append(dict(base_sc, fault=dict(f, save=j)))
+    return out
+
+
+# ----------------------------------------------------------------------------
 # minimisation
 # ----------------------------------------------------------------------------
 def minimise(scenario, sig):
+    if scenario.get("mode") == "runloop":
+        return scenario  # one scene, one fault: nothing to shrink
+
     def fails(sc):
         try:
             r = execute(sc)
@@ -494,6 +591,10 @@ def plan(tier, seed, scale=1.0):
     for caller in CALLERS:
         for size, buf in SWEEP_CONFIGS:
             tasks.append({"kind": "sweep", "caller": caller, "size": size, "buffer": buf, "seed": seed})
+    for ri, recipe in enumerate(RUNLOOP_RECIPES):
+        for resumed in (False, True):
+            for buf in ((8192,) if tier == "quick" else (7, 512, 8192)):
+                tasks.append({"kind": "runloop", "recipe": recipe, "resumed": resumed, "buffer": buf, "seed": seed})
     nseq = int({"quick": 2400, "thorough": 400000}[tier] * scale)
     per = 100 if tier == "quick" else 1000
     for lo in range(0, nseq, per):
@@ -502,7 +603,7 @@ def plan(tier, seed, scale=1.0):
 
 
 def selftest_indices(tasks, n):
-    sw = [i for i, t in enumerate(tasks) if t["kind"] == "sweep"]
+    sw = [i for i, t in enumerate(tasks) if t["kind"] in ("sweep", "runloop")]
     sq = [i for i, t in enumerate(tasks) if t["kind"] == "seq"]
     return (sw[:: max(1, len(sw) // (n // 2))][: n // 2]) + sq[: n - n // 2]
 
@@ -515,7 +616,11 @@ def run_task(task):
         return {"violations": [dict(v, scenario=task["scenario"], engine=ENGINE) for v in r["violations"]], "digest": r["digest"]}
     log = EventLog()
     agg = {"violations": [], "states": {}, "stats": {}, "fired": {}, "runs": 0, "samples": []}
-    if task["kind"] == "sweep":
+    if task["kind"] == "runloop":
+        rng = Rng(run_seed(task["seed"], PROP, "runloop-%s-%s-%s" % (json.dumps(task["recipe"], sort_keys=True), task["resumed"], task["buffer"])))
+        scenarios = runloop_scenarios(task["recipe"], task["resumed"], task["buffer"], task["seed"] & 0xFFFF, rng)
+        found_by = "run-loop sweep (every fs operation of every checkpoint write of one run)"
+    elif task["kind"] == "sweep":
         rng = Rng(run_seed(task["seed"], PROP, "sweep-%s-%s-%s" % (task["caller"], task["size"], task["buffer"])))
         scenarios = sweep_scenarios(task["caller"], task["size"], task["buffer"], rng)
         found_by = "depth-1 sweep"
@@ -533,7 +638,7 @@ def run_task(task):
             agg["stats"][k] = agg["stats"].get(k, 0) + v
         for k, v in r["fired"].items():
             agg["fired"][k] = agg["fired"].get(k, 0) + v
-        if len(agg["samples"]) < 2 and len(sc["attempts"]) >= (1 if task["kind"] == "sweep" else 2):
+        if len(agg["samples"]) < 2 and (sc.get("mode") == "runloop" or len(sc["attempts"]) >= (1 if task["kind"] == "sweep" else 2)):
             agg["samples"].append({"scenario": sc, "states": r["states"]})
         for v in r["violations"]:
             key = json.dumps(v["signature"], sort_keys=True)
@@ -557,10 +662,13 @@ def summarize(tasks, results, tier, seed):
     runs = 0
     samples = []
     sweep_runs = 0
+    runloop_runs = 0
     for t, r in zip(tasks, results):
         runs += r["runs"]
         if t["kind"] == "sweep":
             sweep_runs += r["runs"]
+        if t["kind"] == "runloop":
+            runloop_runs += r["runs"]
         for k, v in r["states"].items():
             states[k] = states.get(k, 0) + v
         for k, v in r["stats"].items():
@@ -578,11 +686,12 @@ def summarize(tasks, results, tier, seed):
         "exhaustive": False,
         "depth1_sweep": {"exhaustive": True, "scenarios": sweep_runs,
                          "space": "callers %s x (payload size, stdio buffer size) in %s x every fs-op boundary (before/after) x torn {0,1,len/2,len-1} x ENOSPC {0,len/2} per write syscall; interrupts in write() calls are sampled (first/last 4 + 12 seeded)" % (CALLERS, SWEEP_CONFIGS)},
-        "seeded_sequences": runs - sweep_runs,
+        "seeded_sequences": runs - sweep_runs - runloop_runs,
+        "run_loop_sweep": {"scenarios": runloop_runs, "space": "real main() runs of %d toy Optimizer/MCMC scenes (fresh and resumed) over a directory that already holds a complete checkpoint: every fs-operation boundary / torn / ENOSPC / sampled interrupt of every checkpoint write the run performs" % len(RUNLOOP_RECIPES)},
         "simulated_time": {"checkpoint_write_attempts": stats.get("attempts", 0), "fs_operations": stats.get("fs_ops", 0)},
         "faults_fired": fired,
         "outcomes": {k: stats.get(k, 0) for k in ("crashed", "completed", "exceptions")},
         "state_histogram_top": dict(sorted(states.items(), key=lambda kv: -kv[1])[:25]),
-        "real_code": ["torchtree.core.parameter_utils.save_parameters", "MCMC.save_full_state / state_dict", "Optimizer.save_full_state / state_dict", "ParameterEncoder / TensorEncoder / TensorDecoder", "json.dump"],
+        "real_code": ["torchtree.core.parameter_utils.save_parameters", "MCMC.save_full_state / state_dict", "Optimizer.save_full_state / state_dict", "ParameterEncoder / TensorEncoder / TensorDecoder", "json.dump", "run-loop sweep: torchtree.main, Optimizer._run/_run_closure, MCMC.run"],
         "stubs": ["file system (SimFS)", "process death (SimCrash)"],
     }
